@@ -71,11 +71,27 @@ var extraGenerators = map[string]func(seed uint64, tier, mode string) *Script{}
 func watchdog(limit time.Duration) {
 	last := uint64(0)
 	same := 0
+	lastProg, sameProg := uint64(0), 0
+	livelock := int(envInt("VSIM_LIVELOCK_S", 45))
 	for {
 		time.Sleep(time.Second)
 		if !vsimRunning.Load() {
-			same = 0
+			same, sameProg = 0, 0
 			continue
+		}
+		if pr := vsimProgress.Load(); pr == lastProg {
+			sameProg++
+		} else {
+			sameProg, lastProg = 0, pr
+		}
+		if sameProg >= livelock {
+			// goroutines are being scheduled but neither the script nor virtual time moves:
+			// something in the bubble spins without ever blocking
+			buf := make([]byte, 1<<20)
+			n := runtime.Stack(buf, true)
+			emit(&outLine{Index: int(vsimCurIdx.Load()), Hang: "LIVELOCK: no harness progress for " + fmt.Sprint(livelock) + " s of real time although goroutines keep running (quiescence is never reached)\n" + string(buf[:n])})
+			os.Stderr.Write(buf[:n])
+			os.Exit(3)
 		}
 		p := runtime.SimBubblePicks()
 		if p == last {
